@@ -104,10 +104,20 @@ func runSchedCase(c *ctx, tc schedCase) {
 	var newBrowsers []*browser
 	for _, p := range tc.procs {
 		var rp *replica
+		// kind grammar: <kind>[+late][@<pid of the process whose replica serves this request too>]
+		pkind, late, on := p.kind, false, p.pid
+		if i := strings.Index(pkind, "@"); i >= 0 {
+			pkind, on = pkind[:i], pkind[i+1:]
+			sc.blockAfter = 300 * time.Millisecond // a request may wait inside the replica for another one's store read instead of issuing its own
+		}
+		if strings.HasSuffix(pkind, "+late") {
+			pkind, late = strings.TrimSuffix(pkind, "+late"), true
+		}
+		p.kind = pkind
 		if tc.store == "memory" {
 			rp = login // the in-memory store lives in one process
 		} else {
-			rp = s.replica(p.pid)
+			rp = s.replica(on)
 		}
 		pb := newBrowser()
 		if jc := b.get(cookie.Session); jc != nil && p.kind != "relogin" {
@@ -147,6 +157,7 @@ func runSchedCase(c *ctx, tc schedCase) {
 			newBrowsers = append(newBrowsers, pb)
 		}
 		sc.spawn(p.pid, rp, pb, method, target, hdr)
+		sc.procs[p.pid].late = late
 	}
 	if os.Getenv("VERIF_DEBUG") != "" {
 		fmt.Fprintln(os.Stderr, "   setup", time.Since(t00))
@@ -311,6 +322,19 @@ func runSched(c *ctx) {
 				if c.thorough() || i == 5 {
 					add("redis", ps, append(append(rep("A", i), rep("C", 3)...), append(rep("B", 3), rep("C", 3)...)...), -1)
 				}
+			}
+		}
+	}
+	// a store read whose REPLY is still travelling while a logout completes elsewhere, and a request that reaches the SAME replica afterwards:
+	// the late reply may serve the request that issued it (it started before the logout) but never the one that started after the logout answered
+	for _, lk := range []string{"logoutlocal", "logout", "frontchannel"} {
+		for _, ak := range []string{"info+late", "proxy+late", "refresh+late"} {
+			for _, ck := range []string{"info@A", "refresh@A", "proxy@A"} {
+				if !c.thorough() && !(lk == "logoutlocal" || ak == "info+late" && ck == "info@A") {
+					continue
+				}
+				ps := []procSpec{{"A", ak}, {"B", lk}, {"C", ck}}
+				add("redis", ps, append(append(rep("A", 2), rep("B", 3)...), append(rep("C", 2), "A")...), -1)
 			}
 		}
 	}
